@@ -19,6 +19,7 @@ package fasthttp
 //@   nooverflow
 //@   stable s.DisableKeepalive s.MaxRequestsPerConn s.CloseOnShutdown s.ReduceMemoryUsage s.StreamRequestBody
 //@   stable s.ExpectHandler s.ContinueHandler s.Handler s.GetOnly s.DisablePreParseMultipartForm s.MaxRequestBodySize
+//@   stable s.HeaderReceived ctx.hijackHandler ctx.hijackNoResponse
 //
 //      -- what this iteration did
 //@   ghost handled bool = false
@@ -42,7 +43,20 @@ package fasthttp
 //@   ghost sentClose bool = false
 //@   ghost hijackStarted bool = false
 //@   ghost ctxReleased int = 0
+//@   ghost lastBuffered int = -1
+//@   ghost hooked bool = false
+//@   ghost ovr int = 0
 //
+//@   on call Server.acquireCtx -> x:
+//@     ensures !x.hijackNoResponse && x.hijackHandler == nil
+//@   on call value:onHdrRecv -> conf:
+//@     effect hooked = true; ovr = conf.MaxRequestBodySize
+//@   on call bufio.Reader.Buffered -> n:
+//@     effect lastBuffered = n
+//@   on call releaseReader#1:
+//@     requires[no-buffered-bytes-dropped] @C02 err != nil || lastBuffered == 0
+//@   on call releaseReader#2:
+//@     requires[no-buffered-bytes-dropped] @C02 err != nil || lastBuffered == 0
 //@   on call Server.setState(_, _, x):
 //@     requires[legal-transition] @C14 legalState(cstate, x)
 //@     requires[active-after-byte] @C14 x == StateActive ==> bytesSeen
@@ -52,23 +66,28 @@ package fasthttp
 //@   on call acquireByteReader -> r, e:
 //@     effect bytesSeen = bytesSeen || e == nil
 //@   on call RequestHeader.Read:
-//@     effect reqDirty = true
+//@     effect reqDirty = true; lastBuffered = -1
 //@   on call RequestHeader.readLoop:
-//@     effect reqDirty = true
-//@   on call Request.readLimitBody:
-//@     effect formLive = *
-//@   on call Request.readBodyStream:
-//@     effect unread = *
-//@   on call Request.ContinueReadBody:
-//@     effect formLive = *; unread = false
-//@   on call Request.ContinueReadBodyStream:
-//@     effect unread = *
+//@     effect reqDirty = true; lastBuffered = -1
+//@   on call Request.readLimitBody(_, r, max):
+//@     requires[body-limit-of-this-request] @C11 max == (hooked && ovr > 0 ? ovr : (s.MaxRequestBodySize > 0 ? s.MaxRequestBodySize : DefaultMaxRequestBodySize))
+//@     effect formLive = *; lastBuffered = -1
+//@   on call Request.readBodyStream(_, r, max):
+//@     requires[body-limit-of-this-request] @C11 max == (hooked && ovr > 0 ? ovr : (s.MaxRequestBodySize > 0 ? s.MaxRequestBodySize : DefaultMaxRequestBodySize))
+//@     effect unread = *; lastBuffered = -1
+//@   on call Request.ContinueReadBody(_, r, max):
+//@     requires[body-limit-of-this-request] @C11 max == (hooked && ovr > 0 ? ovr : (s.MaxRequestBodySize > 0 ? s.MaxRequestBodySize : DefaultMaxRequestBodySize))
+//@     effect formLive = *; unread = false; lastBuffered = -1
+//@   on call Request.ContinueReadBodyStream(_, r, max):
+//@     requires[body-limit-of-this-request] @C11 max == (hooked && ovr > 0 ? ovr : (s.MaxRequestBodySize > 0 ? s.MaxRequestBodySize : DefaultMaxRequestBodySize))
+//@     effect unread = *; lastBuffered = -1
 //@   on call field:ExpectHandler -> status:
 //@     effect rejected = rejected || status != StatusContinue; unread = unread || status != StatusContinue
 //@   on call field:ContinueHandler -> ok:
 //@     effect rejected = rejected || !ok; unread = unread || !ok
 //@   on call field:Handler:
 //@     effect handled = true; respClose = *; respDirty = true; unread = unread && nd
+//@     modifies ctx.hijackHandler ctx.hijackNoResponse ctx.timeoutResponse
 //@   on call Request.hasUnreadBodyStream -> u:
 //@     returns unread
 //@   on call Response.CopyTo:
@@ -120,6 +139,9 @@ package fasthttp
 //@     invariant[state] @C14 (cstate == StateNew && connRequestNum == 0 && br == nil) || (cstate == StateIdle && connRequestNum > 0)
 //@     invariant[never-after-close] @C10 !sentClose && !hijackStarted
 //@     invariant[ctx-held] @C11 ctxReleased == 0
+//@     invariant[ctx-clean] @C11 @C17 !ctx.hijackNoResponse && ctx.hijackHandler == nil
+//@     invariant[body-limit] @C11 s.HeaderReceived == nil ==> maxRequestBodySize == (s.MaxRequestBodySize > 0 ? s.MaxRequestBodySize : DefaultMaxRequestBodySize)
+//@     iter hooked = false; ovr = 0; lastBuffered = -1
 //
 //@   ensures[hijack-started] @C17 hijackHandler != nil && !connectionClose ==> hijackStarted || err != nil && err != errHijacked
 //@   ensures[hijack-hands-off] @C17 hijackStarted ==> br == nil && bw == nil && ctxReleased == 0 && err == errHijacked
@@ -161,6 +183,7 @@ package fasthttp
 //@   ensures[closed-unless-hijacked] @C10 @C17 served ==> (hij ? closed == 0 : closed == 1)
 //@   ensures[one-terminal-state] @C14 served ==> terminals == 1 && cstate == (hij ? StateHijacked : StateClosed)
 //@   ensures[rejected-is-closed] @C12 !served && err == ErrConcurrencyLimit ==> closed == 1 && fastErr && terminals == 0
+//@   ensures[rejected-unreported] @C14 !served ==> cstate == -1
 //@   ensures[concurrency-balanced] @C12 conc == 0
 //@   ensures[hijack-not-an-error] @C17 served && hij ==> err == nil
 
